@@ -1945,7 +1945,9 @@ class FuncCanon(object):
             for field in ("body", "orelse", "finalbody"):
                 b = getattr(node, field, None)
                 if isinstance(b, list):
-                    it = in_try or isinstance(node, ast.Try)
+                    it = in_try or isinstance(node, ast.Try) or (isinstance(node, (ast.With, ast.AsyncWith)) and any(
+                        isinstance(x, (ast.Name, ast.Attribute)) and (x.id if isinstance(x, ast.Name) else x.attr) in ("suppress", "ExitStack", "AsyncExitStack")
+                        for w in node.items for x in ast.walk(w.context_expr)))      # a context manager that can swallow what its body raises
                     if b is blk:
                         return it
                     for st in b:
